@@ -2,7 +2,7 @@ U = "core:internal/protocol"
 
 PROP = {
     "file_prefixes": ["c04_", "c01_"],
-    "technique": "property-based testing (rapid) + native fuzzing: differential against an independent reference decoder over a scripted chunked reader; round-trip through the real writers",
+    "technique": "property-based testing (rapid) + native fuzzing: differential against an independent reference decoder over a scripted chunked reader; round-trip through the real writers; end-to-end frames on a real QUIC stream (raw client, every varint width incl. the frame type, payload right behind the frame)",
     "level_text": "Generated-input exploration: harness-encoded frames in every legal varint width and boundary length, real-writer frames with every padding value forced, over-limit/empty rejects and arbitrary byte strings are decoded by the real readers through an adversarially chunked non-ByteReader and compared with an independent reference decoder (value, exact bytes consumed, largest single read, allocation). Thorough adds coverage-guided native fuzzing of the same differential. Exploration only, not a proof.",
     "level_note": "Trusts the reference decoder written from PROTOCOL.md/RFC 9000 and that streams never return (0, nil) from Read (io.Reader contract; quic-go streams block instead).",
     "rule": "rapid: (request|response) x body length {1,2,62,63,64,65,255,256,2047,2048} U uniform x padding {0,1,63,64,4095,4096} U uniform x varint width per field in {1,2,4,8} x trailing payload 0..64 x cut sets (none, every byte, around field boundaries, random) x EOF-with-data; rejects: declared {limit+1, 16383, 16384, 2^20, 2^30, 2^62-1, 0 for address} in every width with 0..70000 bytes actually available. Non-trivial: non-minimal varint, boundary length, >=3 chunks, padding 0/4096, any reject, any arbitrary-bytes case longer than 2. Distinct = (kind, lengths, widths, cuts).",
